@@ -443,6 +443,83 @@ func c17CommandTypestate(c *Ctx, CRE *ssa.Function, cmdCall *ssa.Call) *c17Cmd {
 			done = wait
 			return start
 		}
+		if run != nil || start != nil || wait != nil {
+			return nil
+		}
+		// the command is run by a module helper it is handed to (`err := runCommand(cmd)`): the helper runs its parameter
+		// (Run, or Start + Wait), writes none of its fields, and every success-capable exit of it lies behind the nil
+		// result of the run — the call of the helper then stands for Run
+		for _, ci := range allCalls(fn) {
+			H, ok := ci.(*ssa.Call)
+			if !ok {
+				continue
+			}
+			g := staticCallee(H)
+			if g == nil || g.Blocks == nil || !w.IsProductFn(g) || g.Signature.Results().Len() != 1 || !isErrorType(g.Signature.Results().At(0).Type()) {
+				continue
+			}
+			for i, a := range H.Call.Args {
+				if a != v || i >= len(g.Params) {
+					continue
+				}
+				p := g.Params[i]
+				var grun, gstart, gwait *ssa.Call
+				clean := true
+				for _, gb := range g.Blocks {
+					for _, in := range gb.Instrs {
+						switch x := in.(type) {
+						case *ssa.Call:
+							if len(x.Call.Args) > 0 && x.Call.Args[0] == ssa.Value(p) {
+								switch calleeName(x) {
+								case "(*os/exec.Cmd).Run":
+									grun = x
+								case "(*os/exec.Cmd).Start":
+									gstart = x
+								case "(*os/exec.Cmd).Wait":
+									gwait = x
+								default:
+									clean = false
+								}
+							}
+						case *ssa.FieldAddr:
+							if x.X == ssa.Value(p) && x.Referrers() != nil {
+								for _, r := range *x.Referrers() {
+									if st, isSt := r.(*ssa.Store); isSt && st.Addr == ssa.Value(x) {
+										clean = false
+									}
+								}
+							}
+						}
+					}
+				}
+				var need []string
+				switch {
+				case grun != nil && gstart == nil && gwait == nil:
+					need = []string{"EQ(" + desc(grun) + ",nil)"}
+				case grun == nil && gstart != nil && gwait != nil:
+					need = []string{"EQ(" + desc(gstart) + ",nil)", "EQ(" + desc(gwait) + ",nil)"}
+				}
+				if !clean || need == nil {
+					continue
+				}
+				sum := w.Summarize(g, Mode{Kind: mErr})
+				if sum == nil || !sum.Complete {
+					continue
+				}
+				all := true
+				for _, l := range need {
+					if !labelHas(sum.Checked, l) {
+						all = false
+					}
+				}
+				if all {
+					c.SeenFn(g.String())
+					ran = []string{"EQ(" + desc(H) + ",nil)"}
+					done = H
+					return H
+				}
+			}
+		}
 		return nil
 	}
 	run := findRun(CRE, cmdCall)
